@@ -52,6 +52,25 @@ fn members() -> &'static Vec<Member> {
             let serial = CertificateInfo::from_pem_bytes(cert_pem.as_bytes()).expect("analyze").serial_number;
             v.push(Member { cert_pem, key_pem: key.serialize_pem(), der: cert.der().to_vec(), serial, expired });
         }
+        // members 5 and 6: a leaf signed by a CA of its own, the certificate file is the chain
+        // (leaf first, then the CA certificate) the way "fullchain" files are written
+        for i in 5..7 {
+            let ca_key = rcgen::KeyPair::generate_for(&rcgen::PKCS_ECDSA_P256_SHA256).expect("keygen");
+            let mut ca_params = rcgen::CertificateParams::new(Vec::<String>::new()).expect("params");
+            ca_params.is_ca = rcgen::IsCa::Ca(rcgen::BasicConstraints::Unconstrained);
+            ca_params.distinguished_name.push(rcgen::DnType::CommonName, format!("verif test CA {i}"));
+            ca_params.serial_number = Some(rcgen::SerialNumber::from(vec![0x70 + i as u8, 1, 2, 3]));
+            let ca_cert = ca_params.self_signed(&ca_key).expect("ca self sign");
+            let issuer = rcgen::Issuer::from_params(&ca_params, &ca_key);
+            let alg = if i % 2 == 0 { &rcgen::PKCS_ECDSA_P256_SHA256 } else { &rcgen::PKCS_ED25519 };
+            let key = rcgen::KeyPair::generate_for(alg).expect("keygen");
+            let mut params = rcgen::CertificateParams::new(vec![format!("member{i}.test"), "localhost".to_string()]).expect("params");
+            params.serial_number = Some(rcgen::SerialNumber::from(vec![0x10 + i as u8, 0x22, 0x33, 0x44, i as u8 + 1]));
+            let leaf = params.signed_by(&key, &issuer).expect("sign leaf");
+            let serial = CertificateInfo::from_pem_bytes(leaf.pem().as_bytes()).expect("analyze").serial_number;
+            let cert_pem = format!("{}{}", leaf.pem(), ca_cert.pem());
+            v.push(Member { cert_pem, key_pem: key.serialize_pem(), der: leaf.der().to_vec(), serial, expired: false });
+        }
         v
     })
 }
@@ -179,9 +198,19 @@ fn classify(cert: &FileState, key: &FileState) -> Want {
                 let text = if is_cert { &ms[i].cert_pem } else { &ms[i].key_pem };
                 let k = idx(*n, text.len() + 1);
                 let end_line = text.rfind("-----END").unwrap();
+                // a chain file: a cut after the complete first block and before the second block has
+                // properly begun leaves a valid leaf-only file (possibly with junk behind it); inside the
+                // last line of either block the file may load or not; anywhere else it is truncated
+                const BEGIN: &str = "-----BEGIN CERTIFICATE-----";
+                const END: &str = "-----END CERTIFICATE-----";
+                let second_begin = text.match_indices(BEGIN).nth(1).map(|m| m.0);
+                let first_end_line = text.find("-----END").unwrap();
                 if k == text.len() {
                     (Some(i), true, false)
                 } else if k > end_line {
+                    (Some(i), false, true)
+                } else if is_cert && second_begin.is_some() && k > first_end_line && k <= second_begin.unwrap() + BEGIN.len() {
+                    let _ = END;
                     (Some(i), false, true)
                 } else {
                     (None, false, false)
@@ -227,9 +256,9 @@ fn write_state(path: &std::path::Path, f: &FileState, is_cert: bool) {
 
 fn state_strategy() -> BoxedStrategy<FileState> {
     prop_oneof![
-        6 => (0u8..5).prop_map(FileState::Member),
-        3 => (0u8..4, any::<u16>()).prop_map(|(i, n)| FileState::Trunc(i, n)),
-        1 => (0u8..4, 64000u16..=65535).prop_map(|(i, n)| FileState::Trunc(i, n)),
+        6 => (0u8..7).prop_map(FileState::Member),
+        3 => (prop_oneof![0u8..4, 5u8..7], any::<u16>()).prop_map(|(i, n)| FileState::Trunc(i, n)),
+        1 => (prop_oneof![0u8..4, 5u8..7], 64000u16..=65535).prop_map(|(i, n)| FileState::Trunc(i, n)),
         1 => Just(FileState::Empty),
         1 => Just(FileState::Garbage),
         1 => (0u8..4).prop_map(FileState::WrongKind),
@@ -256,7 +285,8 @@ impl Family for ReloadFam {
     fn fixed_cases(&self, tier: Tier) -> Vec<ReloadCase> {
         let ms = members();
         let mut v = Vec::new();
-        let which: &[usize] = if tier == Tier::Thorough { &[1, 2] } else { &[1] };
+        // (member 5: a chain file - leaf + CA certificate)
+        let which: &[usize] = if tier == Tier::Thorough { &[1, 2, 5, 6] } else { &[1, 5] };
         for &i in which {
             for is_cert in [true, false] {
                 let len = if is_cert { ms[i].cert_pem.len() } else { ms[i].key_pem.len() };
